@@ -468,6 +468,7 @@ func TestC14Controlled(t *testing.T) {
 // TestC14FreeRunning — many concurrent callers on both ends of a net.Pipe
 // connection (the repository's own ServePipe) under the race detector.
 func TestC14FreeRunning(t *testing.T) {
+	defer vt.Watch("TestC14FreeRunning", 120*time.Second)()
 	rec := vt.For("C14")
 	rec.Rule("free-running (statistical, -race): 1-8 callers per side with nested call-backs (depth<=3) and 0/1ns deadlines over net.Pipe + IOCodec (jsonrpc2.ServePipe); every call returns its own token chain or its context's error; distinct by callers + depths")
 	rapid.Check(t, func(rt *rapid.T) {
